@@ -3,13 +3,22 @@ package props
 import (
 	"bufio"
 	"bytes"
+	"compress/flate"
 	"compress/gzip"
+	"compress/zlib"
+	"context"
 	"errors"
 	"fmt"
 	"io"
 	"io/fs"
+	"net"
+	"os"
+	"os/exec"
+	"sort"
+	"strconv"
 	"strings"
 	"sync"
+	"syscall"
 
 	"github.com/fluhus/biostuff/formats/bed"
 	"github.com/fluhus/biostuff/formats/fasta"
@@ -59,6 +68,37 @@ var faultIdentities = map[string]error{
 	"io.ErrClosedPipe":      io.ErrClosedPipe,
 	"bufio.ErrTooLong":      bufio.ErrTooLong,
 	"gzip.ErrChecksum":      gzip.ErrChecksum,
+}
+
+// faultSentinels: the exported error values of the standard library that a Read may return or wrap - a closed
+// file or pipe, deadlines, cancelled contexts, interrupted and reset system calls, decompressor errors. None
+// of them is io.EOF; a reader that takes one of them for the end of the data drops the failure. Each is used
+// bare, wrapped with %w, and inside an *fs.PathError.
+var faultSentinels = map[string]error{
+	"os.ErrClosed": os.ErrClosed, "os.ErrDeadlineExceeded": os.ErrDeadlineExceeded, "os.ErrNotExist": os.ErrNotExist, "os.ErrPermission": os.ErrPermission, "os.ErrInvalid": os.ErrInvalid, "os.ErrProcessDone": os.ErrProcessDone, "os.ErrNoDeadline": os.ErrNoDeadline,
+	"net.ErrClosed": net.ErrClosed, "context.Canceled": context.Canceled, "context.DeadlineExceeded": context.DeadlineExceeded,
+	"io.ErrShortBuffer": io.ErrShortBuffer, "io.ErrShortWrite": io.ErrShortWrite, "io.ErrClosedPipe": io.ErrClosedPipe, "io.ErrNoProgress": io.ErrNoProgress,
+	"syscall.EINTR": syscall.EINTR, "syscall.EAGAIN": syscall.EAGAIN, "syscall.EPIPE": syscall.EPIPE, "syscall.ECONNRESET": syscall.ECONNRESET, "syscall.EIO": syscall.EIO, "syscall.EBADF": syscall.EBADF, "syscall.ENOSPC": syscall.ENOSPC, "syscall.ESTALE": syscall.ESTALE,
+	"gzip.ErrHeader": gzip.ErrHeader, "flate.CorruptInputError": flate.CorruptInputError(7), "zlib.ErrChecksum": zlib.ErrChecksum,
+	"bufio.ErrNegativeCount": bufio.ErrNegativeCount, "bufio.ErrInvalidUnreadByte": bufio.ErrInvalidUnreadByte, "bufio.ErrFinalToken": bufio.ErrFinalToken, "bufio.ErrAdvanceTooFar": bufio.ErrAdvanceTooFar,
+	"fs.SkipDir": fs.SkipDir, "fs.SkipAll": fs.SkipAll, "exec.ErrNotFound": exec.ErrNotFound, "strconv.ErrRange": strconv.ErrRange, "errors.ErrUnsupported": errors.ErrUnsupported, "http.ErrBodyReadAfterClose": errors.New("http: invalid Read on closed Body"),
+}
+
+var faultSentinelNames []string
+
+func init() {
+	var base []string
+	for n := range faultSentinels {
+		base = append(base, n)
+	}
+	sort.Strings(base)
+	for _, n := range base {
+		e := faultSentinels[n]
+		faultIdentities[n] = e
+		faultIdentities["wrapped:"+n] = fmt.Errorf("read failed: %w", e)
+		faultIdentities["path-error:"+n] = &fs.PathError{Op: "read", Path: "|0", Err: e}
+		faultSentinelNames = append(faultSentinelNames, n, "wrapped:"+n, "path-error:"+n)
+	}
 }
 
 // bufio.ErrBufferFull is deliberately absent: bufio.Reader itself reads that value, coming from the
@@ -247,6 +287,29 @@ func runC07(r *core.Run) {
 											return
 										}
 									}
+								}
+							}
+						}
+					}
+				}
+			}
+		}, checkC07Read)
+
+	r.Bound("read-fault-sentinels", fmt.Sprintf("per format: every well-formed small corpus file and the first medium one x every fault offset x {once, forever} x %d error values: %d exported error values of the standard library (os, net, context, io, syscall, gzip/flate/zlib, bufio, fs, exec, strconv, errors), each bare, wrapped with %%w and inside an *fs.PathError", len(faultSentinelNames), len(faultSentinels)))
+	core.Clause(r, "read-fault-sentinels", core.Opts{Rule: "the same oracle as read-faults, the reader failing with each exported error value of the standard library: none of them is io.EOF, so each is a failure to report, never the end of the data; non-trivial = fault strictly inside the data and at least one record before it"},
+		func(emit func(c07Read) bool) {
+			for _, f := range formats {
+				keys := []string{"medium/0"}
+				for i := range corpus(f.Name, "small") {
+					keys = append(keys, fmt.Sprint("small/", i))
+				}
+				for _, key := range keys {
+					d := corpusBy(f.Name, key)
+					for at := 0; at <= len(d); at++ {
+						for _, forever := range []bool{false, true} {
+							for _, id := range faultSentinelNames {
+								if !emit(c07Read{f.Name, key, at, forever, false, false, id}) {
+									return
 								}
 							}
 						}
